@@ -215,6 +215,7 @@ func capCase(mask uint32, xtv string, o vxdrive.Opts) Case {
 	caps := refterm.FromMask(mask)
 	caps.XTVersion = xtv
 	caps.UserCursorStyle = int(mask % 7)
+	caps.DECRPMAbsent = int(mask>>4+mask) % 3
 	if caps.OSC176 {
 		caps.AppID = "orig"
 	}
